@@ -4,7 +4,7 @@ import numpy as np
 from harness import common as C
 from harness import zoo as Z
 
-ANCHORS = ["T4", "T6lat", "T7pipe"]
+ANCHORS = ["T4", "T6lat", "T7pipe", "T7chain"]
 MODELS = ["ScalerFit"]
 RULE = ("per-feature shifts and positive scalings over many orders of magnitude (std kept above the 1.2e-7 floor), positive weight fields as "
         "DataArray/Dataset/list, latitudes in [-90, 90] under each accepted latitude name, global factors c != 0 of both signs; EOF, ComplexEOF, "
@@ -33,8 +33,25 @@ def as_da(X, latname="lat", lats=None):
     return xr.DataArray(X, dims=("time", latname, "lon"), coords={"time": np.arange(n), latname: lats, "lon": np.arange(nlon) * 10.0})
 
 
+_ENTRY = [0]
+
+
 def fitted(make, da, w=None, **kw):
+    """fit through `fit` and, every other time, through `fit_transform` (keyword and positional weights): the options mean the same on
+    both entry points"""
     m = make(**kw)
+    _ENTRY[0] += 1
+    if _ENTRY[0] % 2 == 0:
+        try:
+            if w is None:
+                m.fit_transform(da, "time")
+            elif _ENTRY[0] % 4 == 0:
+                m.fit_transform(da, "time", weights=w)
+            else:
+                m.fit_transform(da, "time", w)
+            return m
+        except NotImplementedError:
+            return m        # the fit has happened; the class has no transform
     m.fit(da, "time", weights=w) if w is not None else m.fit(da, "time")
     return m
 
